@@ -38,6 +38,7 @@ type caseDesc struct {
 	State        string   `json:"client_state"`
 	StateSigner  string   `json:"state_signed_by"`
 	Skip         bool     `json:"skip_verification"`
+	Alien        string   `json:"record_x_has_non_ed25519_key,omitempty"`
 	Expect       string   `json:"model_says"`
 	Got          string   `json:"got,omitempty"`
 }
@@ -95,6 +96,48 @@ func TestProp_Generate(t *testing.T) {
 		for _, n := range under {
 			registered[n] = true
 		}
+		// "x": a record whose stored certificate key is a well-formed PKIX key of
+		// another algorithm, or not a key at all (storage is the application's; the
+		// library never writes such a record). No signature can be "a valid signature
+		// by the certificate key" of that record, so it verifies nothing; it may sit
+		// under N1 (anywhere in the lookup order) or stand alone.
+		d.Alien = rapid.SampledFrom([]string{"none", "none", "ecdsa", "x25519", "rsa", "unparseable"}).Draw(t, "recordWithNonEd25519Key")
+		actors["x"] = vkit.NewActor("x")
+		if d.Alien != "none" {
+			x := actors["x"]
+			if _, err := w.Authorize(x); err != nil {
+				t.Fatalf("authorize x: %v", err)
+			}
+			alien := []byte("this is not a PKIX structure at all")
+			if d.Alien != "unparseable" {
+				alien = vkit.AlienPkix(d.Alien)
+			}
+			newID, err := nodeenrollment.KeyIdFromPkix(alien)
+			if err != nil {
+				t.Fatalf("key id: %v", err)
+			}
+			underN1 := rapid.Bool().Draw(t, "alienUnderN1")
+			oldID := x.KeyID
+			// load unsealed, change, store again (a sealed record is bound to its id)
+			ni, err := types.LoadNodeInformation(w.Ctx, w.Inner, oldID, w.O()...)
+			if err != nil {
+				t.Fatalf("load x: %v", err)
+			}
+			ni.Id, ni.CertificatePublicKeyPkix = newID, alien
+			if underN1 {
+				ni.NodeId = "N1"
+			}
+			if err := ni.Store(w.Ctx, w.Inner, w.O()...); err != nil {
+				t.Fatalf("store x: %v", err)
+			}
+			_ = w.Inner.Remove(w.Ctx, &types.NodeInformation{Id: oldID})
+			x.KeyID, x.CertPkix = newID, alien
+			registered["x"] = true
+			if underN1 {
+				under = append(under, "x")
+			}
+		}
+		names = append(names, "x")
 		// lookup order for N1
 		order := rapid.Permutation(under).Draw(t, "order")
 		d.Records = order
@@ -157,6 +200,7 @@ func TestProp_Generate(t *testing.T) {
 		}
 
 		// ---- reference predicate ----
+		class0 := ""
 		var lookup []string // actor names in lookup order
 		lookupErr := false
 		if d.ReqNodeID != "" && d.NodeIdLoader {
@@ -177,6 +221,9 @@ func TestProp_Generate(t *testing.T) {
 			}
 		}
 		verifies := func(who string, data, sig []byte) bool {
+			if who == "x" && d.Alien != "none" {
+				return false // not an Ed25519 key: nothing is a valid signature by it
+			}
 			return len(sig) > 0 && ed25519.Verify(actors[who].CertPub, data, sig)
 		}
 		full, nonceOK, stateOK := false, false, false
@@ -207,7 +254,12 @@ func TestProp_Generate(t *testing.T) {
 			d.Got = "success"
 		}
 		nontrivial := len(lookup) >= 2 || (d.NonceSigner != d.Claimed) || d.State != "absent"
-		class := d.Expect
+		for _, l := range lookup {
+			if l == "x" && d.Alien != "none" {
+				class0 = "/lookup-holds-non-ed25519-record"
+			}
+		}
+		class := d.Expect + class0
 		if d.ReqNodeID != "" && d.NodeIdLoader {
 			class += "/node-id-path"
 		} else {
